@@ -177,6 +177,15 @@ def run(ctx):
         fs = ex.submit(_validate, ctx, "RobustTrace_strict.cfg", 1500)
         bad, _ = fm.result()
         sbad, _ = fs.result()
+    # a hang whose dump did not show the spinning goroutine's stack (it ran on another thread than the one
+    # that handled the signal) is filed under the stack seen for the same pipeline and input class
+    common = collections.defaultdict(collections.Counter)
+    for r in recs:
+        if r["outcome"] == "hang" and r["sig"]:
+            common[(r["kind"], r["c"]["site"])][r["sig"]] += 1
+    for r in recs:
+        if r["outcome"] == "hang" and not r["sig"] and common[(r["kind"], r["c"]["site"])]:
+            r["sig"] = common[(r["kind"], r["c"]["site"])].most_common(1)[0][0]
     groups = collections.OrderedDict()
     seen = set()
     for inv, l in bad:
